@@ -198,6 +198,19 @@ def theme_forests(theme, budget):
                  if sum(1 for n in h if n[0] == "elem" and n[1] == "title") == 1]
         bodies = forests(("x", "sp", "c", "p", "script", "style", "link", "meta"), brules, min(budget, 3), 1)
         return [(h, b) for h in heads for b in bodies]
+    if theme == "G6":     # p as a child of the transparent / special parents before whose end tag </p> must be kept
+        rules = {
+            "x": ("leaf", T("x")), "sp": ("leaf", T(" ")),
+            "p": ("elem", "p", (), ("x",), 0),
+            "div": ("elem", "div", (), ("x", "ins", "del", "map", "a", "noscript", "video"), 0),
+            "ins": ("elem", "ins", (), ("x", "p"), 0),
+            "del": ("elem", "del", (), ("x", "p"), 0),
+            "map": ("elem", "map", (("name", "m"),), ("x", "p"), 0),
+            "a": ("elem", "a", (("href", "u"),), ("x", "p"), 0),
+            "noscript": ("elem", "noscript", (), ("x", "p"), 0),
+            "video": ("elem", "video", (("controls", ""),), ("x", "p"), 0),
+        }
+        return [((title,), f) for f in forests(("div", "x"), rules, budget, 3)]
     raise ValueError(theme)
 
 
@@ -224,4 +237,4 @@ def ok_tables(forest):
     return True
 
 
-THEMES = ["G1", "G2", "G3", "G4", "G5"]
+THEMES = ["G1", "G2", "G3", "G4", "G5", "G6"]
